@@ -56,6 +56,30 @@ def span_volume(P):
     return O.hull_volume(Y)
 
 
+def section_volume(W):
+    """volume of conv(W) within its affine span for many (mostly non-extreme) points: candidates for the extreme points from qhull,
+    brute-force volume of those, and an own containment test of ALL points (a disagreement -> None, never a verdict)"""
+    from scipy.spatial import ConvexHull
+
+    Q = W - W.mean(0)
+    u, sv, vt = np.linalg.svd(Q, full_matrices=False)
+    k = int(np.sum(sv > 1e-9 * sv[0]))
+    Y = Q @ vt[:k].T
+    if k == 1:
+        return float(Y.max() - Y.min())
+    try:
+        vert = ConvexHull(Y).vertices
+    except Exception:  # noqa
+        return None
+    V = Y[vert]
+    if len(V) > 60:
+        return None
+    mg = O.hull_margin(V, Y)
+    if mg is None or np.min(mg) < -1e-9 * (1 + np.max(np.abs(Y))):
+        return None
+    return O.hull_volume(V)
+
+
 def perimeter(P):
     hr = O.hull_hrep(P)
     if hr is None:  # segment
@@ -310,6 +334,40 @@ def run_unit(unit, rec):
                 rec.outcome("gamut/%s" % ("ok" if bad is None else "bad"))
                 if bad:
                     _v(rec, "e", dict(sig, what=bad[:30]), bad, case, observed=dict(g0=g0, scaled=gs, rows_scaled=grow, self=gself, superset=gsup))
+        # gamut at a fixed total capture = volume of the hull's section {sum = c} in the unit-edge simplex chart
+        box4 = np.array(list(itertools.product((0.0, 1.0), (0.0, 2.0), (0.0, 0.5), (0.0, 1.5)))) + 0.25
+        box5 = np.array(list(itertools.product((0.0, 1.0), repeat=5))) * np.array([1, 2, 0.5, 1.5, 1]) + 0.125
+        rnd4 = np.round(np.random.default_rng(11 + seed).uniform(0.1, 3, (9, 4)) * 8) / 8
+        for cname, X in (("set3d-0", sets[0]), ("set3d-3", sets[3]), ("box-4d", box4), ("box-5d", box5), ("random-4d", rnd4)):
+            l1 = X.sum(1)
+            lo_, hi_ = float(np.sort(l1)[1]), float(l1.max())
+            for frac in (0.3, 0.6):
+                c = lo_ + frac * (hi_ - lo_)
+                sig = dict(family="gamut-section", api="compute_gamut")
+                case = dict(cloud=cname, at_l1=c)
+                rec.path()
+                rec.trans()
+                try:
+                    g = float(dreye.compute_gamut(X, at_l1=c, metric="volume"))
+                except Exception as e:  # noqa
+                    _v(rec, "e", dict(sig, **exc_sig(e)), "compute_gamut(at_l1=...) raised %r" % (e,), case)
+                    continue
+                Z = []
+                for a in range(len(X)):
+                    for b in range(len(X)):
+                        if l1[a] <= c <= l1[b] and l1[a] != l1[b]:
+                            t = (c - l1[a]) / (l1[b] - l1[a])
+                            Z.append(X[a] + t * (X[b] - X[a]))
+                ref = section_volume(np.array(Z) / c / math.sqrt(2.0))
+                if ref is None:
+                    rec.count("section-oracle-undecided")
+                    continue
+                rec.distinct(("section", cname, frac))
+                ok = abs(g - ref) <= 1e-9 * (1 + ref)
+                rec.outcome("gamut-section/%s" % ("ok" if ok else "bad"))
+                if not ok:
+                    _v(rec, "e", dict(sig, what="section-volume"), "gamut at total capture %.4g is %.10g, the section of the hull has volume %.10g" % (c, g, ref), case, observed=g, expected=ref,
+                       script="import numpy as np, dreye\nX = np.array(%r)\nprint(dreye.compute_gamut(X, at_l1=%r, metric='volume'))\n" % (X.tolist(), c))
         rec.sample(dict(kind=kind, sets=len(sets)), cap=1)
     elif kind == "estimator":
         # fraction of the perfect system, absolute capture, in (0, 1]
